@@ -188,11 +188,29 @@ fn build_val<'a>(spec: &'a ValSpec, arena: &Arena<'a>) -> Result<Option<Val<'a>>
     }))
 }
 
+/// Builds a tag through one of the six ways the crate offers (chosen by position), and
+/// checks that all the ways back to an integer agree.
+fn mk_tag(t: u32, how: usize) -> Result<Tag, Fail> {
+    let tag: Tag = match how % 6 {
+        0 => Tag::new_from_u32(t),
+        1 => Tag::new(&t.to_le_bytes()),
+        2 => (&t).into(),
+        3 => t.into(),
+        4 => (&t.to_le_bytes()).into(),
+        _ => t.to_le_bytes().into(),
+    };
+    let back: [u32; 3] = [tag.value(), u32::from(tag), u32::from(&tag)];
+    if back != [t; 3] || tag.bytes != t.to_le_bytes() || tag != Tag::new_from_u32(t) {
+        return Err(Fail::new("tag:conversions", format!("tag {t:#x} built the {}-th way reads back as {back:?} with bytes {:?}", how % 6, tag.bytes)));
+    }
+    Ok(tag)
+}
+
 fn build_wrapper<'a>(ctor: Ctor, pairs: &'a [(u32, ValSpec)], arena: &Arena<'a>) -> Result<Built<'a>, Fail> {
     let mut elements: Vec<(Tag, Val<'a>)> = vec![];
-    for (t, v) in pairs {
+    for (i, (t, v)) in pairs.iter().enumerate() {
         match build_val(v, arena)? {
-            Some(val) => elements.push((Tag::new_from_u32(*t), val)),
+            Some(val) => elements.push((mk_tag(*t, i + *t as usize)?, val)),
             None => return Ok(Built::RejectedAsExpected),
         }
     }
@@ -255,7 +273,13 @@ fn check_case_inner<'a>(case: &'a Case, arena: &Arena<'a>) -> CaseResult {
     let bytes: Vec<u8> = match case.sink {
         SinkKind::Iovec => {
             let mut sink = OwningIovec::new();
-            wrapper.to_rough_tlv(&mut sink);
+            if case.pairs.len() % 2 == 1 {
+                // Through the forwarding impls: `&mut Sink` as a sink, `&T` as a value.
+                let mut by_ref = &mut sink;
+                (&wrapper).to_rough_tlv(&mut by_ref);
+            } else {
+                wrapper.to_rough_tlv(&mut sink);
+            }
             sink.flatten().map_err(|_| Fail::new("sink:pending", "iovec sink has a placeholder pending"))?
         }
         SinkKind::HcobsEncoder => {
@@ -268,6 +292,9 @@ fn check_case_inner<'a>(case: &'a Case, arena: &Arena<'a>) -> CaseResult {
     if bytes != want {
         return Err(Fail::new("layout", super::codec::mismatch("emitted bytes differ from the Roughtime layout", &bytes, &want)));
     }
+    if (&wrapper).rough_tlv_len() != wrapper.rough_tlv_len() {
+        return Err(Fail::new("len", "rough_tlv_len() through a reference differs".to_string()));
+    }
     if wrapper.rough_tlv_len() != bytes.len() {
         return Err(Fail::new("len", format!("rough_tlv_len() is {} but {} bytes were emitted", wrapper.rough_tlv_len(), bytes.len())));
     }
@@ -276,6 +303,10 @@ fn check_case_inner<'a>(case: &'a Case, arena: &Arena<'a>) -> CaseResult {
     let view = MessageView::new(Cow::Borrowed(&bytes[..])).map_err(|e| Fail::new("view:rejects", format!("MessageView rejected the emitted bytes {}: {e}", show(&bytes))))?;
     if view.len() != want_pairs.len() || view.is_empty() != want_pairs.is_empty() {
         return Err(Fail::new("view:len", format!("view reports {} pairs, expected {}", view.len(), want_pairs.len())));
+    }
+    let second = MessageView::new(Cow::Borrowed(&bytes[..])).map_err(|e| Fail::new("view:rejects", format!("second MessageView::new on the same bytes failed: {e}")))?;
+    if view.inner()[..] != bytes[..] || second.into_inner()[..] != bytes[..] {
+        return Err(Fail::new("view:inner", "inner() / into_inner() do not return the bytes the view was built on".to_string()));
     }
     let iterated: Vec<(u32, Vec<u8>)> = view.iter().map(|(t, v)| (t.value(), v.to_vec())).collect();
     if iterated != want_pairs {
